@@ -3,11 +3,16 @@ package sim
 import (
 	"os"
 	"strings"
+	"sync/atomic"
 	"testing"
+	"time"
 
 	"github.com/apex/log"
 	"github.com/apex/log/handlers/discard"
+	"github.com/gofrs/uuid"
 	"pgregory.net/rapid"
+
+	"github.com/Flowpack/prunner/store"
 
 	"verif/internal/ev"
 )
@@ -21,6 +26,9 @@ func TestMain(m *testing.M) {
 
 // Step executes one generated action.
 func (m *Machine) Step(t *rapid.T, failPct int) {
+	if m.ended {
+		return // the history ended with a shutdown
+	}
 	w := map[string]int{}
 	for k, v := range m.cfg.Weights {
 		if v <= 0 {
@@ -67,6 +75,8 @@ func (m *Machine) Step(t *rapid.T, failPct int) {
 		m.ActRestartProbe(t)
 	case "saveRetention":
 		m.ActSaveRetention(t)
+	case "shutdown":
+		m.ActShutdown(t)
 	}
 }
 
@@ -85,8 +95,14 @@ func runHistories(t *testing.T, o histOpts) {
 		rt.Repeat(map[string]func(*rapid.T){
 			"step": func(rt *rapid.T) { m.Step(rt, o.failPct) },
 		})
+		if o.cfg.ShutdownAtEnd && !m.ended {
+			m.ActShutdown(rt)
+		}
 		m.Drain()
 		st := m.w.Stats
+		if atomic.LoadInt32(&m.mem.AutoSaves) > 1 {
+			st.Slow = true // the case took longer than the persist interval
+		}
 		if st.Slow {
 			col.AddInconclusive()
 		}
@@ -236,4 +252,94 @@ func TestC12(t *testing.T) {
 	runHistories(t, histOpts{cfg: cfg, failPct: 20,
 		rule:       "simulator histories over a real JsonDataStore and FileOutputStore: retention_count in {0,1,2,3,5} x retention_period in {0,1h,24h} per pipeline, a pre-loaded data.json with jobs of generated ages (>=25% away from the period boundaries), states (finished, canceled, failed, running/waiting left by a crashed run, jobs of an undefined pipeline) and log directories, then live activity interleaved with explicit saves and reloads that drop/add pipelines or edit retention; oracle around every save (sets before/after): removed jobs are finished ones of defined pipelines or belong to undefined pipelines; <= count finished remain; none older than the period; a kept finished job implies all newer finished ones kept; no settings => nothing removed; API ids == store ids == /pipelines/jobs ids; removed jobs' log directories gone, kept ones byte-identical; non-trivial = a save with a removed and a kept job in one pipeline and an unfinished job ranked above a finished one; distinct by action trace",
 		nontrivial: func(c map[string]int) bool { return c["save:nontrivial"] > 0 }})
+}
+
+// C11 (simulated part): shutdown leaves only terminal jobs and a store that matches them.
+func TestC11Sim(t *testing.T) {
+	cfg := &Cfg{Prop: "C11", MaxPipelines: 2, MaxTasks: 4, DelayPct: 30, ReplacePct: 15, AllowFailPct: 15, ContinuePct: 30,
+		LimitChoices: []int{-1, -1, 2, 3}, Weights: map[string]int{"schedule": 34, "cancel": 6, "finish": 22, "timer": 8, "hold": 8, "release": 4, "shutdown": 9},
+		Armed: map[string]bool{"C11": true}, ShutdownAtEnd: true}
+	runHistories(t, histOpts{cfg: cfg, failPct: 15,
+		rule:       "a generated history builds the pre-state (running multi-task jobs with tasks still to be launched, held scheduler loops, waiting and delayed jobs, finished ones); then Shutdown runs in a goroutine, graceful or forced (context canceled before the call or after k further task completions), with a schedule request racing its start; while it is in progress the harness keeps finishing tasks in generated order/outcomes, releases loops, and issues schedule and save requests; oracle at return: no job running or waiting, no task executing, the last snapshot the store received equals the reported state of every job, requests during/after are refused (ErrShuttingDown, HTTP 503) without effect, a raced accepted request is terminal; graceful => no stop request reaches a runner because of the shutdown and every running job ends as its outcomes imply, waiting jobs canceled and never run; forced => running jobs are told to stop, context error returned, never a plain success with unrun tasks; non-trivial = at the start of the shutdown a job was running with an unlaunched task and a job was waiting; distinct by action trace",
+		nontrivial: func(c map[string]int) bool { return c["shutdown:nontrivial"] > 0 }})
+}
+
+// C11 (real-time part): every acknowledged change reaches the store within the persist interval.
+func TestC11Persist(t *testing.T) {
+	col := ev.Get("C11", "persist", "16 runners at a time, each driven through a generated short history (schedule/cancel/finish/timer/hold) without any explicit save, left alone for the persist interval, then given 0-2 late single changes and left alone again; after 3 s (the persist interval) + 1.5 s slack the last snapshot the store received must equal the reported state of every job; a canary timer marks the batch inconclusive if the process was starved; non-trivial = the history changed state after the first automatic save (so the debounced second save is what must deliver it); distinct by action trace")
+	cfg := &Cfg{Prop: "C11", MaxPipelines: 2, MaxTasks: 3, DelayPct: 25, ReplacePct: 20, AllowFailPct: 15, ContinuePct: 30,
+		LimitChoices: []int{-1, -1, 2, 3}, Weights: map[string]int{"schedule": 34, "cancel": 10, "finish": 30, "timer": 8, "hold": 3, "release": 4},
+		Armed: map[string]bool{"C11": true}}
+	rapid.Check(t, func(rt *rapid.T) {
+		const batch = 16
+		var ms []*Machine
+		defer func() {
+			for _, m := range ms {
+				m.Close()
+			}
+		}()
+		var lastChange time.Time
+		for i := 0; i < batch; i++ {
+			m := NewMachine(rt, cfg)
+			ms = append(ms, m)
+			n := rapid.IntRange(2, 14).Draw(rt, "steps")
+			for s := 0; s < n; s++ {
+				m.Step(rt, 15)
+			}
+		}
+		// let every persist loop become idle, then make single late changes: each of them must reach the
+		// store on its own (nothing else will trigger a save afterwards)
+		time.Sleep(3300 * time.Millisecond)
+		for _, m := range ms {
+			n := rapid.IntRange(0, 2).Draw(rt, "lateSteps")
+			for s := 0; s < n; s++ {
+				m.Step(rt, 15)
+			}
+			lastChange = time.Now()
+		}
+		late := make(chan time.Duration, 1)
+		start := time.Now()
+		time.AfterFunc(3*time.Second, func() { late <- time.Since(start) - 3*time.Second })
+		time.Sleep(time.Until(lastChange.Add(4500 * time.Millisecond)))
+		if l := <-late; l > 500*time.Millisecond {
+			col.AddInconclusive()
+			return
+		}
+		for i, m := range ms {
+			s := m.w.Snapshot()
+			last, saves := m.mem.Get()
+			if len(s.Jobs) == 0 {
+				continue
+			}
+			if last == nil {
+				rt.Fatalf("[C11] runner %d: %d jobs are reported, nothing reached the store within the persist interval", i, len(s.Jobs))
+			}
+			inStore := map[uuid.UUID]*store.PersistedJob{}
+			for k := range last.Jobs {
+				inStore[last.Jobs[k].ID] = &last.Jobs[k]
+			}
+			for _, j := range m.order() {
+				js := s.Jobs[j.ID]
+				if js == nil {
+					continue
+				}
+				pj := inStore[j.ID]
+				if pj == nil {
+					m.fail("C11", "job #%d is reported but did not reach the store within the persist interval", j.AcceptIdx)
+					continue
+				}
+				if d := diffPersisted(pj, js); d != "" {
+					m.fail("C11", "job #%d: the store lags behind the reported state after the persist interval: %s", j.AcceptIdx, d)
+				}
+			}
+			col.Add(strings.Join(m.w.Trace, "\n"), saves >= 2, map[string]int{"second-automatic-save": btoi(saves >= 2), "jobs>=3": btoi(len(s.Jobs) >= 3)}, m.w.Stats.Steps, m.w.Trace)
+		}
+	})
+}
+
+func btoi(b bool) int {
+	if b {
+		return 1
+	}
+	return 0
 }
